@@ -172,24 +172,29 @@ func rulePDF417Encoder(c *Ctx) {
 		n.BindParams(fn, "data", "level", "color")
 		bindCalls(n, c.P, fn, nil, map[string][2]string{"pdf417.calcDimensions": {"cols", "rows"}, "pdf417.highlevelEncode": {"words", "hlErr"}, "pdf417.encodeData": {"cw", "edErr"}})
 		// row loop counter: the rangeindex used as rowNum = arg0 of getLeftCodeWord
-		left := callsTo(fn, c.P.Func("pdf417.getLeftCodeWord"))
-		right := callsTo(fn, c.P.Func("pdf417.getRightCodeWord"))
-		gcw := callsTo(fn, c.P.Func("pdf417.getCodeword"))
+		left := c.P.deepCallsTo(fn, c.P.Func("pdf417.getLeftCodeWord"))
+		right := c.P.deepCallsTo(fn, c.P.Func("pdf417.getRightCodeWord"))
+		gcw := c.P.deepCallsTo(fn, c.P.Func("pdf417.getCodeword"))
 		if len(left) != 1 || len(right) != 1 || len(gcw) != 3 {
 			c.Check(R6, "pdf417.EncodeWithColor/shape", fn.Pos(), false, "one left, one right indicator call and three getCodeword calls", fmt.Sprintf("%d/%d/%d", len(left), len(right), len(gcw)))
 		} else {
-			row := left[0].Common().Args[0]
+			row := left[0].Ins.(*ssa.Call).Common().Args[0]
 			n.Bind[row] = "r"
-			for _, call := range append(left, right...) {
+			for _, s := range append(left, right...) {
+				call := s.Ins.(*ssa.Call)
 				var got []string
 				for _, a := range call.Common().Args {
-					got = append(got, n.Norm(a).String())
+					got = append(got, n.NormAt(s, a).String())
 				}
 				c.Check(R6, "pdf417.EncodeWithColor/"+calleeOf(call).Name()+"-args", call.Pos(), fmt.Sprint(got) == "[r rows cols level]", "[r rows cols level]", fmt.Sprint(got))
 			}
 			kinds := map[string]bool{}
-			for _, call := range gcw {
+			for _, s := range gcw {
+				call := s.Ins.(*ssa.Call)
+				saved := n.Ctx
+				n.Ctx = s.Path
 				c.expectPoly(R6, "pdf417.EncodeWithColor/cluster@"+c.P.Pos(call.Pos()), call.Pos(), n, call.Common().Args[0], "r % 3")
+				n.Ctx = saved
 				switch w := call.Common().Args[1].(type) {
 				case *ssa.Call:
 					kinds[calleeOf(w).Name()] = true
@@ -206,18 +211,22 @@ func rulePDF417Encoder(c *Ctx) {
 				}
 			}
 		}
-		// start/stop constants in the appends
+		// start/stop constants in the appends (in EncodeWithColor or the helpers it delegates the rows to)
 		sw, _ := c.P.ConstInt("pdf417", "start_word")
 		ew, _ := c.P.ConstInt("pdf417", "stop_word")
 		seen := map[int64]int{}
-		for _, s := range appendSites(fn) {
-			for _, e := range s.elems {
-				if k, ok := n.Norm(e).IsConst(); ok {
-					seen[k]++
+		rowFns := map[*ssa.Function]bool{fn: true}
+		c.P.deepEach(fn, 2, func(s DeepSite) { rowFns[s.Fn] = true })
+		for f := range rowFns {
+			for _, s := range appendSites(f) {
+				for _, e := range s.elems {
+					if k, ok := n.Norm(e).IsConst(); ok {
+						seen[k]++
+					}
 				}
 			}
 		}
-		c.Check(R6, "pdf417.EncodeWithColor/start-stop", fn.Pos(), seen[sw] == 1 && seen[ew] == 1, "start and stop pattern appended once per row", fmt.Sprint(seen))
+		c.Check(R6, "pdf417.EncodeWithColor/start-stop", fn.Pos(), seen[sw] == 1 && seen[ew] == 1, "start and stop pattern appended once per row", fmt.Sprintf("start %d, stop %d", seen[sw], seen[ew]))
 		// width
 		eachInstr(fn, func(b *ssa.BasicBlock, ins ssa.Instruction) {
 			st, ok := ins.(*ssa.Store)
